@@ -47,6 +47,7 @@ func anyProgram(rt *rapid.T, s *vh.Session) (runCase, *gen.Builder) {
 	}
 	b := gen.New(rt, o)
 	b.OpenNonComparable = s.Open("F-ZERO-NONCOMPARABLE")
+	b.OpenPtrSrcWhole = s.Open("F-UPDATE-PTRSRC-WHOLE")
 	b.NoUnnamedUnexported = s.Open("F-UNNAMED-UNEXPORTED")
 	if rapid.IntRange(0, 2).Draw(rt, "wrap") == 0 {
 		b.Conv.Settings.Wrap = rapid.SampledFrom([]string{"errors", "using"}).Draw(rt, "wrap-mode")
@@ -110,6 +111,18 @@ func conformanceFile(c runCase, spc *spec.Converter) string {
 	switch c.Format {
 	case "function":
 		for _, m := range spc.Methods {
+			spellable := true
+			for _, p := range m.Params {
+				spellable = spellable && !hasUnnamedUnexported(p.T)
+			}
+			for _, r := range m.Results {
+				spellable = spellable && !hasUnnamedUnexported(r)
+			}
+			if !spellable {
+				// the conformance package cannot spell unnamed structs with unexported fields
+				fmt.Fprintf(&body, "var _ = gen.%s\n", m.Name)
+				continue
+			}
 			var ps, rs []string
 			for _, p := range m.Params {
 				ps = append(ps, typeExpr(p.T))
@@ -145,6 +158,30 @@ func conformanceFile(c runCase, spc *spec.Converter) string {
 	}
 	b.WriteString(")\n\n" + body.String())
 	return b.String()
+}
+
+// hasUnnamedUnexported: does the type expression contain an unnamed struct with an unexported field?
+func hasUnnamedUnexported(t *spec.T) bool {
+	if t == nil {
+		return false
+	}
+	if t.K == spec.KStruct {
+		for _, f := range t.Fields {
+			if !spec.Exported(f.Name) || hasUnnamedUnexported(f.T) {
+				return true
+			}
+		}
+		return false
+	}
+	if hasUnnamedUnexported(t.Elem) || hasUnnamedUnexported(t.Key) {
+		return true
+	}
+	for _, a := range t.Args {
+		if hasUnnamedUnexported(a) {
+			return true
+		}
+	}
+	return false
 }
 
 // shadowing reports identifiers declared by emitted code that shadow another emitted
@@ -424,7 +461,7 @@ func TestC01(t *testing.T) {
 			s.LabelN("gen:"+l, k)
 		}
 		s.Label("format:" + c.Format)
-		for _, f := range []string{"F-UNNAMED-UNEXPORTED", "F-ZERO-NONCOMPARABLE"} {
+		for _, f := range []string{"F-UNNAMED-UNEXPORTED", "F-ZERO-NONCOMPARABLE", "F-UPDATE-PTRSRC-WHOLE"} {
 			if b.Labels["excluded:"+f] > 0 {
 				s.Excluded(f)
 			}
@@ -527,6 +564,15 @@ func c01Features(c runCase, msg string) []string {
 	var fs []string
 	if reErrShadowOnly.MatchString(msg) {
 		fs = append(fs, "err-shadow")
+	}
+	if strings.Contains(msg, "source != (") && strings.Contains(msg, "mismatched types *") || strings.Contains(msg, "cannot use source (variable of type *") {
+		for _, m := range c.Conv.Methods {
+			for _, fc := range m.Fields {
+				if m.Update && m.Source.K == spec.KPtr && fc != nil && fc.Source == "." {
+					fs = append(fs, "update-ptrsrc-whole")
+				}
+			}
+		}
 	}
 	if strings.Contains(msg, "/* package ") || strings.Contains(msg, "as struct{") || strings.Contains(msg, "mismatched types struct{") {
 		fs = append(fs, "unnamed-unexported")
